@@ -151,7 +151,20 @@ func (a *adv) Step(j int, mech string, msg []byte, has bool) refsmtp.AuthStep {
 			text = b64(mkFirst("NoClientNonceYet" + fmt.Sprint(a.rn.T)))
 		}
 	case "foreignNonce":
-		text = b64(mkFirst("Foreign" + fmt.Sprint(a.rn.T) + "Nonce"))
+		// a nonce that does not extend the client's, of exactly the length the valid one has (a message that
+		// fits any buffer the valid server-first fitted)
+		foreign := "Foreign" + fmt.Sprint(a.rn.T) + "Nonce"
+		if nonce != "" {
+			rev := []byte(nonce)
+			for i, j := 0, len(rev)-1; i < j; i, j = i+1, j-1 {
+				rev[i], rev[j] = rev[j], rev[i]
+			}
+			if string(rev) == nonce {
+				rev[0] ^= 1
+			}
+			foreign = string(rev) + "SrvExt" + fmt.Sprint(a.rn.T)
+		}
+		text = b64(mkFirst(foreign))
 	case "truncNonce":
 		n := nonce
 		if len(n) > 2 {
